@@ -9,11 +9,17 @@ Oracle: all public read paths of the real object (and of every retained slice) a
 a slice lands on the selected ids of the parent as it is NOW and nowhere else.
 Collections: FEMAttributes of attributes stored in different id orders, every collection-level read path against the
 attributes' own tables (`c08.cfilter`, `c08.csetattr`), also through FEMData.extract_with_element_indices.
-Further streams: time-series read paths; mixed-type element collections (`_update_self`, `filter_with_ids`,
-`generate_elemental_attribute`) against `Core.flatten` and brute-force definitions; uses outside the quantifier (counted only)."""
+Further streams: time-series read paths; mixed-type element collections (`_update_self`, `update({type: block})`, `filter_with_ids`,
+`generate_elemental_attribute`, `nodes.ids2indices(elements)`) against `Core.flatten` and brute-force definitions; uses outside the
+quantifier (counted only).
+Round 4 (class F): dtype and memory layout are dimensions of EVERY stream - each array handed to femio (initial data, every update,
+every collection member, time series, element ids and connectivity, read-path arguments) is drawn from all integer widths signed /
+unsigned, float32, bool, float64 x C / Fortran / transposed view / moved axes / non-contiguous slices / read-only / negative stride;
+only VALUES are compared, and the freshly constructed object is itself checked against the table handed over."""
 import contextlib
 import io
 import math
+import os
 from fractions import Fraction
 
 import numpy as np
@@ -27,9 +33,14 @@ THEOREMS = ['C08_inv_init', 'C08_inv', 'C08_reachable', 'C08_views_agree', 'C08_
             'C08_mixed_once_sorted',
             'C08_hist_inv', 'C08_hist_reachable', 'C08_keepRef_noop', 'C08_write_through_by_id', 'C08_held_write_by_id',
             'C08_collection_filter', 'C08_collection_set_attribute',
+            'C08_unsigned_guard_vacuous', 'C08_signed_guard_sound', 'C08_counterexample_unsigned_shortcut',
+            'C08_layout_C_roundtrip', 'C08_layout_A_symmetric', 'C08_counterexample_layout_A',
             'C08_counterexample_loc_write', 'C08_counterexample_overwrite', 'C08_counterexample_update_index',
             'C08_counterexample_iloc_scalar', 'C08_counterexample_slice_alias']
-PARTIAL = ['time-series attributes: data assignment and every read path (ids, data, loc, iloc, filter_with_ids) are checked by the oracle '
+PARTIAL = ['dtype and memory layout are dimensions of the correspondence and of the oracle, not of the model state (the model table holds '
+           'exact values); Model/AttrLayout states the two shortcuts that make them observable (order="A" flattening, unsigned np.diff guard) '
+           'and their decide-d counterexamples, the driver does not execute them',
+           'time-series attributes: data assignment and every read path (ids, data, loc, iloc, filter_with_ids) are checked by the oracle '
            'only, not modelled; update raises NotImplementedError for time series and write-through of a time-series slice is not exercised',
            'ragged (object) attributes: read paths of polyhedron blocks are exercised by the element stream (oracle only), not modelled',
            'update(allow_overwrite=False) raises AttributeError on the installed pandas (DataFrame.append removed): modelled '
@@ -38,7 +49,12 @@ PARTIAL = ['time-series attributes: data assignment and every read path (ids, da
            'the upstream aliasing of slices (Cfg.sliceOwnsData = false) is modelled in simplified form (any retained reference severs '
            'the view); only the decide-d counterexample C08_counterexample_slice_alias and its corpus replay rely on it']
 RULE = ('seeded histories of 1..12 (thorough: ..30) operations on one attribute with unsorted / sparse / large / "looks sorted" '
-        '(midshuf, swap2) ids, rank 1..3 data, with and without id2index: public updates (data assignment, update with/without '
+        '(midshuf, swap2) ids, rank 1..4 data (scalars, vectors, non-symmetric 2x2 / 3x3 / 2x3 / 2x2x2 tensors), with and without id2index; '
+        'per history a data dtype (float64, float32, bool, every integer width signed / unsigned; values drawn exactly representable) and '
+        'an ids dtype (default or any signed / unsigned width the ids fit in), per array handed over a memory layout (C, Fortran, '
+        'transposed view, id axis moved to the front, every-second-row / leading-columns slices of larger buffers, read-only, negative '
+        'stride) and the choice stored-dtype / float64; the freshly constructed attribute is checked against the table handed over; '
+        'then public updates (data assignment, update with/without '
         'overwrite incl. NaN cells and new ids that re-sort the rows, write through .loc / .iloc slices spelled as list / array / Index / '
         'one key / boolean mask / positional slice, FEMAttributes.overwrite with and without ids) INTERLEAVED with references the caller '
         'retains: slices a.loc[..] / a.iloc[..] kept across later updates of the parent and written through later (.data =, .update), '
@@ -50,10 +66,20 @@ RULE = ('seeded histories of 1..12 (thorough: ..30) operations on one attribute 
         'built by constructor, update_data, update, set_attribute_data, read after each of 0..3 collection-level updates through '
         'filter_with_ids, extract_dict, get_attribute_ids/data, get_data_length, are_same_lengths, to_dict/from_dict, to_meshio and '
         'FEMData.extract_with_element_indices (non-trivial = attributes stored in different id orders); time-series attributes '
-        '(assignment, then every read path); mixed-type element collections with interleaved ids; a labelled stream of uses outside '
-        'the quantifier (caller edits its own array after handing it over, ids assigned, an element block written behind the '
-        'collection) is recorded in the distribution and never reported')
-ASSUMPTIONS = ['pandas combine_first semantics (union index sorted ascending unless the two indexes are identical; cell-wise '
+        '(assignment, then every read path incl. single-key loc / iloc), same dtype / layout dimensions; element collections of 1..4 '
+        'types (incl. ragged polyhedron blocks) whose ids are numbered randomly / consecutively type after type / that with one adjacent '
+        'transposition / later type holding the smaller ids / round-robin / descending, ids per collection or per block in any signed / '
+        'unsigned width, connectivity in any integer width and layout, dict insertion order permuted; checked as constructed, after a '
+        'public update({type: block}) replacing a block or adding a type, and on the collections returned by filter_with_ids / '
+        'generate_elemental_attribute (each again: every element once, ascending, type / connectivity / id2index / ids_types / '
+        'dict_type_ids / blocks consistent), nodes.ids2indices(collection); a labelled stream of uses outside the quantifier (caller '
+        'edits its own array after handing it over, ids assigned, an element block written behind the collection, pandas refusing a value '
+        'the column dtype cannot hold) is recorded in the distribution and never reported')
+ASSUMPTIONS = ['dtype and memory layout of an array are not part of the table it describes: generated values are exactly representable in '
+               'the dtype they are handed over in (and in float32 / float64), all comparisons are by value through exact rationals; a write '
+               'that pandas REFUSES with TypeError "Invalid value ... for dtype" (a value the column dtype cannot hold, e.g. a NaN kept by '
+               'an old slice written into a parent re-assigned as bool / integers) ends the history and is counted outside the quantifier',
+               'pandas combine_first semantics (union index sorted ascending unless the two indexes are identical; cell-wise '
                '"new unless NaN") are reproduced by the model and validated by this correspondence',
                'ids are pairwise distinct (the property\'s id sets), also within one selection',
                'FEMAttributes.overwrite(name, data, ids=...) puts a NEW attribute object into the collection: slices of the old object '
@@ -114,6 +140,13 @@ def parse_state(t):
     return ids, data, frame, idx
 
 
+def det_ids(sel):
+    """the ids of a read-path argument as an array whose dtype is chosen deterministically from the content (replayable):
+    default int64, or a signed / unsigned width they fit in"""
+    sel = [int(i) for i in sel]
+    return ids_array(sel, (None, 'uint16', 'uint32', 'uint64', 'int32', 'uint8', None)[sum(sel) % 7] if sel else None)
+
+
 def oracle(a):
     """all public read paths of the real object agree; returns a list of (path, detail)"""
     bad = []
@@ -138,7 +171,7 @@ def oracle(a):
             if r != data[k]:
                 bad.append(('getitem', f'[{i}] = {r} but data[{k}] = {data[k]}'))
             if a.generate_id2index:
-                p = a.ids2indices(np.array([i]))
+                p = a.ids2indices(det_ids([i]))
                 if [int(x) for x in np.ravel(p)] != [k]:
                     bad.append(('ids2indices', f'ids2indices([{i}]) = {np.ravel(p).tolist()} but the id is stored at {k}'))
         except Exception as e:
@@ -156,7 +189,7 @@ def oracle(a):
     if n:
         sel = ids[::-1][: max(1, n // 2)]
         try:
-            f = a.filter_with_ids(np.array(sel))
+            f = a.filter_with_ids(det_ids(sel))
             if [int(i) for i in f.ids] != sel or rows_of(f.data, len(sel)) != [data[ids.index(i)] for i in sel]:
                 bad.append(('filter_with_ids', f'filter_with_ids({sel}) does not return the rows stored for these ids'))
         except Exception as e:
@@ -164,21 +197,143 @@ def oracle(a):
     return bad
 
 
-def shape_rows(rows, tail):
+# ------------------------------------------------------------------------------------------------ dtype and memory layout
+# The SAME table can reach femio as arrays of any dtype and any memory layout (components computed as (3, 3, n) and handed over as
+# the transposed (n, 3, 3) view, np.asfortranarray, slices of larger buffers, read-only arrays coming out of np.load(mmap) /
+# other libraries, ids in unsigned dtypes as binary readers deliver them).  None of that is part of the table: every stream
+# below draws (dtype, layout) per array it hands over and compares VALUES only.
+DTYPES = ('float64', 'float32', 'int8', 'uint8', 'int16', 'uint16', 'int32', 'uint32', 'int64', 'uint64', 'bool')
+INT_DTYPES = ('int8', 'uint8', 'int16', 'uint16', 'int32', 'uint32', 'int64', 'uint64')
+LAYOUTS = ('C', 'F', 'T', 'axes', 'strided', 'strided-last', 'readonly', 'F-readonly', 'reversed')
+_POISON = {'b': True, 'i': 77, 'u': 77, 'f': -77.25}
+
+
+def value_kind(dt):
+    """which values a generator may draw so that they are exactly representable in dtype `dt`"""
+    if dt in (None, 'float64', 'float32'):
+        return 'float'
+    return 'bool' if dt == 'bool' else 'uint' if dt.startswith('u') else 'int'
+
+
+def lay(a, layout):
+    """the same array VALUE (shape, dtype, every element) in another memory layout"""
+    a = np.asarray(a)
+    if a.dtype == object or layout in (None, 'C'):
+        return a
+    poison = _POISON.get(a.dtype.kind, 0)
+    if layout == 'F':                      # Fortran-contiguous, owns its data
+        out = np.asfortranarray(a)
+    elif layout == 'T':                    # computed component-wise as (.., q, p, n), handed over as the transposed view
+        out = np.ascontiguousarray(a.T).T
+    elif layout == 'axes':                 # components first, (p, q, n) C-ordered, id axis moved to the front (a view that is
+        out = np.moveaxis(np.ascontiguousarray(np.moveaxis(a, 0, -1)), -1, 0) if a.ndim > 1 else a[:]      # neither C nor F contiguous)
+    elif layout == 'strided' or (layout == 'strided-last' and a.ndim < 2):          # every second row of a larger buffer
+        big = np.full((2 * len(a) + 1,) + a.shape[1:], poison, dtype=a.dtype)
+        big[1::2] = a
+        out = big[1::2]
+    elif layout == 'strided-last':         # the leading columns of a wider buffer
+        big = np.full(a.shape[:-1] + (a.shape[-1] + 2,), poison, dtype=a.dtype)
+        big[..., :a.shape[-1]] = a
+        out = big[..., :a.shape[-1]]
+    elif layout == 'readonly':
+        out = np.array(a, order='C')
+        out.setflags(write=False)
+    elif layout == 'F-readonly':
+        out = np.array(a, order='F')
+        out.setflags(write=False)
+    elif layout == 'reversed':             # negative stride along the id axis
+        out = np.ascontiguousarray(a[::-1])[::-1]
+    else:
+        raise ValueError(layout)
+    assert out.shape == a.shape and out.dtype == a.dtype and np.array_equal(out, a, equal_nan=(a.dtype.kind == 'f'))
+    return out
+
+
+def cast_rows(a, dt):
+    """float64 array -> dtype dt when every value is exactly representable there, else unchanged (the caller passes float64)"""
+    if dt in (None, 'float64') or np.isnan(a).any():
+        return a
+    info = None if dt in ('float32', 'bool') else np.iinfo(dt)
+    if info is not None and a.size and (a.min() < info.min or a.max() > info.max):
+        return a
+    b = a.astype(dt)
+    return b if np.array_equal(b.astype(float), a) else a
+
+
+def shape_rows(rows, tail, dt=None, layout=None):
     a = np.array([[NAN if v == 'n' else float(v) for v in r] for r in rows], dtype=float)
-    return a.reshape([len(rows)] + list(tail))
+    return lay(cast_rows(a.reshape([len(rows)] + list(tail)), dt), layout)
 
 
-PUB = ('setData', 'update', 'locWrite', 'ilocWrite', 'overwrite', 'overwriteIds')
+def rows_fit(rows, dt):
+    """every non-NaN value of the rows is exactly representable in dtype dt"""
+    vk = value_kind(dt)
+    if vk == 'float':
+        return True
+    lo, hi = (0, 1) if vk == 'bool' else (np.iinfo(dt).min, np.iinfo(dt).max)
+    return all(v == 'n' or (v.denominator == 1 and lo <= v <= hi) for r_ in rows for v in r_)
+
+
+def fitting_id_dtypes(ids):
+    lo, hi = (min(ids), max(ids)) if len(ids) else (0, 0)
+    return [d for d in INT_DTYPES if np.iinfo(d).min <= lo and hi <= np.iinfo(d).max]
+
+
+def rand_id_dtype(r, ids, p_default=.45):
+    """None = whatever np.array(list of ints) gives (int64); otherwise any signed / unsigned width the ids fit in"""
+    if r.random() < p_default:
+        return None
+    c = fitting_id_dtypes(ids)
+    uns = [d for d in c if d.startswith('u')]
+    return r.choice(uns if (uns and r.random() < .6) else c) if c else None
+
+
+def ids_array(ids, idt=None, layout=None):
+    a = np.array(ids, dtype=idt) if (idt and all(np.iinfo(idt).min <= i <= np.iinfo(idt).max for i in ids)) else np.array(ids)
+    return lay(a, layout if layout in ('strided', 'readonly', 'reversed') else None)
+
+
+def rand_layout(r, p_c=.3):
+    return 'C' if r.random() < p_c else r.choice(LAYOUTS[1:])
+
+
+def rand_dtype(r, p_f64=.4):
+    return 'float64' if r.random() < p_f64 else r.choice(DTYPES[1:])
+
+
+class Fmt:
+    """per history: dtype of the data, dtype of the ids and a seed from which the (dtype, layout) of the array handed over by the
+    k-th operation is derived - deterministic, so that a recorded history replays with the same arrays"""
+    def __init__(self, d=None):
+        d = d or {}
+        self.dt, self.idt, self.seed = d.get('dt'), d.get('idt'), d.get('seed')
+        self.lay0, self.idlay = d.get('lay0'), d.get('idlay')
+        self.step = 0
+
+    def to_json(self):
+        return {'dt': self.dt, 'idt': self.idt, 'seed': self.seed, 'lay0': self.lay0, 'idlay': self.idlay}
+
+    def next_op(self):
+        """(dtype, layout, ids layout) for the arrays of the next operation"""
+        self.step += 1
+        if self.seed is None:
+            return None, None, None
+        import random
+        fr = random.Random(self.seed * 100003 + self.step)
+        dt = self.dt if (self.dt == 'bool' or fr.random() < .7) else 'float64'
+        return dt, rand_layout(fr), fr.choice([None, None, 'strided', 'readonly', 'reversed'])
+
+
+PUB =('setData', 'update', 'locWrite', 'ilocWrite', 'overwrite', 'overwriteIds')
 N_REF_KINDS = 10
 
 
-def make_key(form, sel, a, positional=False):
+def make_key(form, sel, a, positional=False, idt=None):
     """the same selection spelled in the different ways a caller may spell it"""
     if form == 'scalar':
         return sel[0]
     if form == 'array':
-        return np.array(sel)
+        return np.array(sel) if positional else ids_array(sel, idt)
     if form == 'slice':          # contiguous positions (iloc only)
         return slice(sel[0], sel[-1] + 1)
     if form == 'mask':           # boolean mask over the stored rows (selection in stored order)
@@ -190,49 +345,57 @@ def make_key(form, sel, a, positional=False):
 
 
 def apply_real(holder, op):
-    """holder = {'attrs': FEMAttributes, 'name': str, 'held': [slices kept by the caller], 'refs': [...]}; returns error kind"""
+    """holder = {'attrs': FEMAttributes, 'name': str, 'held': [slices kept by the caller], 'refs': [...], 'fmt': Fmt};
+    returns error kind"""
     from femio import FEMAttributes  # noqa
     a = holder['attrs'][holder['name']]
     tail = holder['tail']
     held = holder.setdefault('held', [])
     kind = op[0]
     form = op[3] if kind in ('locWrite', 'ilocWrite') and len(op) > 3 else (op[2] if kind in ('take', 'takeI') and len(op) > 2 else 'list')
+    fmt = holder.get('fmt') or Fmt()
+    dt, layout, idlay = fmt.next_op()
+    holder.pop('last_exc', None)
+    idt = fmt.idt
+
+    def arr(rows):          # the rows of this operation as the array the caller hands over
+        return shape_rows(rows, tail, dt, layout)
     try:
         with contextlib.redirect_stdout(io.StringIO()):
             if kind == 'setData':
                 if len(op) > 2 and op[2] == 'update_data':
-                    a.update_data(shape_rows(op[1], tail))
+                    a.update_data(arr(op[1]))
                 else:
-                    a.data = shape_rows(op[1], tail)
+                    a.data = arr(op[1])
             elif kind == 'update':
                 spell = op[4] if len(op) > 4 else 'list'
-                ids_, vals = list(op[1]), shape_rows(op[2], tail)
+                ids_, vals = list(op[1]), arr(op[2])
                 if spell == 'scalar' and len(ids_) == 1:          # update(id, value): one id, not wrapped in a list
                     ids_ = ids_[0]
                     if not tail:
                         vals = float(vals[0])
                 elif spell == 'array':
-                    ids_ = np.array(ids_)
+                    ids_ = ids_array(ids_, idt, idlay)
                 elif spell == 'tuple':
                     ids_ = tuple(ids_)
                 a.update(ids_, vals, allow_overwrite=bool(op[3]))
             elif kind == 'locWrite':
-                a.loc[make_key(form, list(op[1]), a)].data = shape_rows(op[2], tail)
+                a.loc[make_key(form, list(op[1]), a, idt=idt)].data = arr(op[2])
             elif kind == 'ilocWrite':
-                a.iloc[make_key(form, list(op[1]), a, True)].data = shape_rows(op[2], tail)
+                a.iloc[make_key(form, list(op[1]), a, True)].data = arr(op[2])
             elif kind == 'overwrite':
-                holder['attrs'].overwrite(holder['name'], shape_rows(op[1], tail))
+                holder['attrs'].overwrite(holder['name'], arr(op[1]))
             elif kind == 'overwriteIds':
-                holder['attrs'].overwrite(holder['name'], shape_rows(op[2], tail), ids=np.array(op[1]))
+                holder['attrs'].overwrite(holder['name'], arr(op[2]), ids=ids_array(op[1], idt, idlay))
                 del held[:]          # a NEW object sits in the collection: the slices held belong to the old one
             elif kind == 'take':
-                held.append(a.loc[make_key(form, list(op[1]), a)])
+                held.append(a.loc[make_key(form, list(op[1]), a, idt=idt)])
             elif kind == 'takeI':
                 held.append(a.iloc[make_key(form, list(op[1]), a, True)])
             elif kind == 'heldSet':
-                held[op[1]].data = shape_rows(op[2], tail)
+                held[op[1]].data = arr(op[2])
             elif kind == 'heldUpdate':
-                held[op[1]].update(list(op[2]), shape_rows(op[3], tail), allow_overwrite=True)
+                held[op[1]].update(list(op[2]), arr(op[3]), allow_overwrite=True)
             elif kind == 'drop':
                 del held[op[1]]
             elif kind == 'keepRef':
@@ -244,10 +407,15 @@ def apply_real(holder, op):
                        lambda: a.ids, lambda: a.iloc[[0]].data, lambda: a.to_dict(), lambda: df.values,
                        lambda: a.filter_with_ids(a.ids[:1]).data_frame][k]()
                 holder.setdefault('refs', []).append(ref)
+        if fmt.dt not in (None, 'float64') and kind in ('setData', 'overwrite', 'overwriteIds', 'update') and \
+                not rows_fit(op[2] if kind in ('update', 'overwriteIds') else op[1], fmt.dt):
+            fmt.dt = 'float64'          # the frame has been REPLACED by one holding values the old dtype cannot: a float table from now on
         return 'ok'
-    except ValueError:
+    except ValueError as e:
+        holder['last_exc'] = f'{type(e).__name__}: {e}'
         return 'value_error'
-    except (KeyError, IndexError):
+    except (KeyError, IndexError) as e:
+        holder['last_exc'] = f'{type(e).__name__}: {e}'
         return 'key_error'
     except Exception as e:
         holder['last_exc'] = f'{type(e).__name__}: {e}'
@@ -295,17 +463,21 @@ def parse_hist(t):
     return cur, held, refs, vws
 
 
-def rand_val(r, allow_nan):
+def rand_val(r, allow_nan, vk='float'):
     u = r.random()
     if allow_nan and u < .2:
         return 'n'
-    if u < .6:
+    if vk == 'bool':
+        return Fraction(r.randint(0, 1))
+    if vk == 'uint':
+        return Fraction(r.randint(0, 100))
+    if u < .6 or vk == 'int':
         return Fraction(r.randint(-50, 50))
     return Fraction(r.randint(-400, 400), r.choice([2, 4, 8]))
 
 
-def rand_rows(r, n, w, allow_nan=False):
-    return [[rand_val(r, allow_nan) for _ in range(w)] for _ in range(n)]
+def rand_rows(r, n, w, allow_nan=False, vk='float'):
+    return [[rand_val(r, allow_nan, vk) for _ in range(w)] for _ in range(n)]
 
 
 def rand_sel(r, ids, loc=True, scalar_iloc=False):
@@ -332,7 +504,7 @@ def rand_sel(r, ids, loc=True, scalar_iloc=False):
     return r.sample(range(n), r.randint(1, n)), r.choice(['list', 'list', 'array'])
 
 
-def rand_op(r, ids, w, held_ids=(), slicey=False, scalar_iloc=False):
+def rand_op(r, ids, w, held_ids=(), slicey=False, scalar_iloc=False, vk='float'):
     """one operation of the history alphabet; `held_ids` = the ids of the slices the caller still holds"""
     n = len(ids)
     if r.random() < .07:
@@ -342,11 +514,11 @@ def rand_op(r, ids, w, held_ids=(), slicey=False, scalar_iloc=False):
         if held_ids and v < .22:
             k = r.randrange(len(held_ids))
             m = len(held_ids[k])
-            return ('heldSet', k, rand_rows(r, m if r.random() < .95 else m + 1, w))
+            return ('heldSet', k, rand_rows(r, m if r.random() < .95 else m + 1, w, vk=vk))
         if held_ids and v < .30:
             k = r.randrange(len(held_ids))
             sel = r.sample(held_ids[k], r.randint(1, len(held_ids[k])))
-            return ('heldUpdate', k, sel, rand_rows(r, len(sel), w, allow_nan=True))
+            return ('heldUpdate', k, sel, rand_rows(r, len(sel), w, allow_nan=True, vk=vk))
         if held_ids and v < .33:
             return ('drop', r.randrange(len(held_ids)))
         if len(held_ids) < 3 and v < (.62 if not held_ids else .45):
@@ -358,8 +530,14 @@ def rand_op(r, ids, w, held_ids=(), slicey=False, scalar_iloc=False):
             pos, form = rand_sel(r, ids, False, scalar_iloc)
             return ('takeI', pos, form)
     u = r.random()
+    vk_in = vk
+    if vk != 'float' and r.random() < .15:
+        # operations that REPLACE the frame (data assignment, overwrite, update = combine_first) may hand over values the stored
+        # dtype cannot hold (fractions into an integer / bool attribute): the table simply changes dtype.  Writes INTO the existing
+        # frame (through slices) keep to values the stored dtype holds (pandas refuses others: outside the quantifier)
+        vk = 'float'
     if u < .14:
-        return ('setData', rand_rows(r, n if r.random() < .9 else n + 1, w), r.choice(['data', 'data', 'update_data']))
+        return ('setData', rand_rows(r, n if r.random() < .9 else n + 1, w, vk=vk), r.choice(['data', 'data', 'update_data']))
     if u < .42 or (held_ids and u < .6):
         k = r.randint(1, max(1, n))
         old = r.sample(ids, min(k, n)) if r.random() < .8 else []
@@ -378,22 +556,22 @@ def rand_op(r, ids, w, held_ids=(), slicey=False, scalar_iloc=False):
             sel = [ids[0]]
         if r.random() < .15:
             sel = sel[:1]
-        return ('update', sel, rand_rows(r, len(sel), w), r.random() < .9, 'scalar') if len(sel) == 1 and r.random() < .7 else \
-            ('update', sel, rand_rows(r, len(sel), w, allow_nan=True), r.random() < .9, r.choice(['list', 'list', 'array', 'tuple']))
+        return ('update', sel, rand_rows(r, len(sel), w, vk=vk), r.random() < .9, 'scalar') if len(sel) == 1 and r.random() < .7 else \
+            ('update', sel, rand_rows(r, len(sel), w, allow_nan=True, vk=vk), r.random() < .9, r.choice(['list', 'list', 'array', 'tuple']))
     if u < .65:
         sel, form = rand_sel(r, ids, True)
         if r.random() < .07:
             sel, form = sel + [max(ids) + 5], 'list'
         nrows = len(sel) if r.random() < .93 else len(sel) + 1
-        return ('locWrite', sel, rand_rows(r, nrows, w), form)
+        return ('locWrite', sel, rand_rows(r, nrows, w, vk=vk_in), form)
     if u < .8:
         pos, form = rand_sel(r, ids, False, scalar_iloc)
-        return ('ilocWrite', pos, rand_rows(r, len(pos), w), form)
+        return ('ilocWrite', pos, rand_rows(r, len(pos), w, vk=vk_in), form)
     if u < .93:
-        return ('overwrite', rand_rows(r, n if r.random() < .9 else max(0, n - 1), w))
+        return ('overwrite', rand_rows(r, n if r.random() < .9 else max(0, n - 1), w, vk=vk))
     m = r.randint(1, 6)
     nid, _ = mg.random_ids(r, m)
-    return ('overwriteIds', nid, rand_rows(r, m, w))
+    return ('overwriteIds', nid, rand_rows(r, m, w, vk=vk))
 
 
 def table_of(st):
@@ -482,19 +660,43 @@ def step_oracles(holder, op, err, before, before_held, after, after_held, first)
     return out
 
 
+def construct_oracle(a, ids, rows0):
+    """the freshly constructed attribute IS the table handed over: (ids[k], data[k]) = (ids[k], rows0[k]) and every read path agrees"""
+    got_ids = [int(i) for i in a.ids]
+    if got_ids != list(ids):
+        return [('ids', f'ids {got_ids} but {list(ids)} were handed over')]
+    data = rows_of(a.data, len(ids))
+    if data != rows0:
+        k = next(k for k in range(len(ids)) if data[k] != rows0[k])
+        return [('data', f'data[{k}] = {[str(v) for v in data[k]]} but the row handed over for id {ids[k]} is {[str(v) for v in rows0[k]]}')]
+    return oracle(a)
+
+
 def history(ctx, hid):
     from femio import FEMAttribute, FEMAttributes
     r = ctx.rng
     n = r.randint(1, 7)
     ids, style = mg.random_ids(r, n)
+    if r.random() < .06:          # ids beyond 2^31 / 2^32 (uint32 / 64-bit dtypes only)
+        off = r.choice([2**31, 3 * 10**9, 2**32, 2**40])
+        ids, style = [i + off for i in ids], style + '+beyond-2^31'
     ids, order = mg.order_ids(r, list(ids), {i: i for i in ids}, r.choice(['asc', 'desc', 'shuf', 'shuf', 'midshuf', 'swap2']))
-    tail = r.choice([[], [1], [3], [2, 2], [3, 3]])
+    tail = r.choice([[], [1], [3], [2, 2], [3, 3], [2, 3], [2, 2, 2]])
     w = int(np.prod(tail)) if tail else 1
     with_idx = r.random() < .6
     slicey = r.random() < .55          # histories in which the caller keeps slices and writes through them later
-    rows0 = rand_rows(r, n, w)
-    a = FEMAttribute('x', ids=np.array(ids), data=shape_rows(rows0, tail), silent=True, generate_id2index=with_idx)
-    holder = {'attrs': FEMAttributes({'x': a}), 'name': 'x', 'tail': tail, 'held': [], 'refs': []}
+    # dtype / memory layout of everything the caller hands over (the table is the same table whatever they are)
+    fmt = Fmt({'dt': rand_dtype(r), 'idt': rand_id_dtype(r, ids), 'seed': r.randrange(10**6), 'lay0': rand_layout(r),
+               'idlay': r.choice([None, None, 'strided', 'readonly', 'reversed'])})
+    vk = value_kind(fmt.dt)
+    rows0 = rand_rows(r, n, w, vk=vk)
+    a = FEMAttribute('x', ids=ids_array(ids, fmt.idt, fmt.idlay), data=shape_rows(rows0, tail, fmt.dt, fmt.lay0), silent=True,
+                     generate_id2index=with_idx)
+    holder = {'attrs': FEMAttributes({'x': a}), 'name': 'x', 'tail': tail, 'held': [], 'refs': [], 'fmt': fmt}
+    fmt_json = fmt.to_json()
+    ctx.count(f'data-dtype:{fmt.dt}')
+    ctx.count(f'ids-dtype:{fmt.idt or "default"}')
+    ctx.count(f'layout:initial:{fmt.lay0}' + (':rank>=3' if len(tail) >= 2 else ''))
     moved = []             # per held slice: did the parent's ids / order change since the slice was taken
     scalar_iloc = not check_scalar_slices(a)      # write through `a.iloc[k]` (one int) only where that slice carries the id
     ctx.count(f'ids:{style}/{order}')
@@ -507,17 +709,35 @@ def history(ctx, hid):
         t = C.Toks(ctx.driver.ask(f'c08.new {int(with_idx)} {C.enc_list(ids)} {enc_rows(rows0)}'))
         assert t.tok() == 'ok' and t.tok() == 'ok'
         model = (parse_state(t), [], 0, [])
+    # ---- the attribute as constructed: the table handed over, through every read path
+    case0 = {'ids': ids, 'rows0': rows0, 'tail': tail, 'with_index': with_idx, 'ops': [], 'fmt': fmt_json}
+    ctx.case((hid, 'construct'), nontrivial=(fmt.lay0 != 'C' or fmt.dt != 'float64' or fmt.idt is not None))
+    bad = construct_oracle(a, ids, rows0)
+    if bad:
+        ctx.fail(f'views-disagree:construct:{bad[0][0]}', f'a freshly constructed attribute (data dtype {fmt.dt}, layout {fmt.lay0}, '
+                 f'ids dtype {fmt.idt}) does not describe the table handed over: {bad[0][1]}', case0, None)
+        return
+    if model is not None and observe(a) != model[0]:
+        ctx.disagree('state after construction', case0, observe(a), model[0])
+        return
     for step in range(r.randint(1, ctx.n(12, 30))):
         a = holder['attrs'][holder['name']]
         cur_ids = [int(i) for i in a.ids]
         held_ids = [[int(i) for i in c.ids] for c in holder['held']]
-        op = rand_op(r, cur_ids, w, held_ids, slicey, scalar_iloc)
+        op = rand_op(r, cur_ids, w, held_ids, slicey, scalar_iloc, vk)
         before = observe(a)
         before_held = [observe(c) for c in holder['held']]
         err = apply_real(holder, op)
         ops.append(op)
         a = holder['attrs'][holder['name']]
-        case = {'ids': ids, 'rows0': rows0, 'tail': tail, 'with_index': with_idx, 'ops': ops[:]}
+        case = {'ids': ids, 'rows0': rows0, 'tail': tail, 'with_index': with_idx, 'ops': ops[:], 'fmt': fmt_json}
+        if err == 'other' and 'Invalid value' in holder.get('last_exc', '') and 'for dtype' in holder.get('last_exc', ''):
+            # pandas refuses to store a value the column's dtype cannot hold (e.g. a NaN kept by an old slice written into a parent
+            # that was re-assigned as integers meanwhile): a refusal, not a statement about the table - outside the quantifier
+            ctx.count(f'outside-quantifier:dtype-refusal:{op[0]}')
+            if os.environ.get('C08_DEBUG'):
+                print('DTYPE-REFUSAL', fmt_json, tail, ops[-3:], holder.get('last_exc'))
+            return
         try:
             after = observe(a)
             after_held = [observe(c) for c in holder['held']]
@@ -540,6 +760,9 @@ def history(ctx, hid):
             fatal = fatal or f
         if fatal:
             return
+        if value_kind(fmt.dt) != vk:          # the table now holds values the original dtype could not (see apply_real)
+            vk = value_kind(fmt.dt)
+            ctx.count(f'dtype-change:to-float:{op[0]}')
         if err == 'ok':
             if op[0] in ('take', 'takeI'):
                 moved.append(False)
@@ -557,6 +780,10 @@ def history(ctx, hid):
                 raise RuntimeError('driver: ' + rep[:300])
             merr = t.tok()
             model = parse_hist(t)
+            if merr == 'ok' and err != 'ok':          # the model's refusals are the legitimate ones (wrong length, unknown id, F5)
+                ctx.fail(f'update-raises:{op[0]}', f'{op[0]} raised {holder.get("last_exc", err)} on a legal input (data dtype {fmt.dt}, '
+                         f'ids dtype {fmt.idt}, array handed over as {fmt.dt}/float64 in a non-default memory layout)', case, None)
+                return
             if (merr, model[0], model[1]) != (err, after, after_held):
                 ctx.disagree(f'state after {op[0]}', case, {'err': err, 'state': after, 'held': after_held, 'exc': holder.get('last_exc')},
                              {'err': merr, 'state': model[0], 'held': model[1]})
@@ -566,29 +793,36 @@ def history(ctx, hid):
 
 
 # ------------------------------------------------------------------------------------------------ collections
+def _attr_data(sp):
+    return shape_rows(_restore(sp['rows']), sp['tail'], sp.get('dt'), sp.get('lay'))
+
+
+def _attr_ids(sp):
+    return ids_array(sp['ids'], sp.get('idt'), sp.get('idlay'))
+
+
 def _attr_from(spec):
     from femio import FEMAttribute
-    return FEMAttribute(spec['name'], ids=np.array(spec['ids']), data=shape_rows(_restore(spec['rows']), spec['tail']), silent=True,
+    return FEMAttribute(spec['name'], ids=_attr_ids(spec), data=_attr_data(spec), silent=True,
                         generate_id2index=spec.get('with_index', False))
 
 
 def build_collection(spec):
     """a FEMAttributes whose attributes arrive the ways they do in practice: constructor, update_data (a field computed later,
-    ids in the order of whoever computed it), update, set_attribute_data"""
+    ids in the order of whoever computed it), update, set_attribute_data; every array in the dtype / memory layout the spec names"""
     from femio import FEMAttributes
     first = spec['attrs'][0]
     with contextlib.redirect_stdout(io.StringIO()):
         if first['route'] == 'list':
             coll = FEMAttributes([_attr_from(first)])
         elif first['route'] == 'arrays':
-            coll = FEMAttributes(names=[first['name']], ids=np.array(first['ids']),
-                                 list_arrays=[shape_rows(_restore(first['rows']), first['tail'])])
+            coll = FEMAttributes(names=[first['name']], ids=_attr_ids(first), list_arrays=[_attr_data(first)])
         else:
             coll = FEMAttributes({first['name']: _attr_from(first)})
         for sp in spec['attrs'][1:]:
-            data = shape_rows(_restore(sp['rows']), sp['tail'])
+            data = _attr_data(sp)
             if sp['route'] == 'update_data':
-                coll.update_data(np.array(sp['ids']), {sp['name']: data})
+                coll.update_data(_attr_ids(sp), {sp['name']: data})
             elif sp['route'] == 'update':
                 coll.update({sp['name']: _attr_from(sp)})
             elif sp['route'] == 'set_attribute_data':
@@ -598,22 +832,27 @@ def build_collection(spec):
     return coll
 
 
-def apply_collection_op(coll, tails, op):
+def apply_collection_op(coll, tails, op, dts=None, layout=None):
+    """dts = {attribute name: dtype its arrays are handed over in} (updated like tails), layout = memory layout of this op's arrays"""
     kind = op[0]
+    dts = dts if dts is not None else {}
+
+    def arr(nm, rows, tail):
+        return shape_rows(_restore(rows), tail, dts.get(nm), layout)
     try:
         with contextlib.redirect_stdout(io.StringIO()):
             if kind == 'update_data':
-                coll.update_data(list(op[1]), {nm: shape_rows(_restore(rows), tails[nm]) for nm, rows in op[2].items()},
-                                 allow_overwrite=True)
+                coll.update_data(list(op[1]), {nm: arr(nm, rows, tails[nm]) for nm, rows in op[2].items()}, allow_overwrite=True)
             elif kind == 'overwrite':
-                coll.overwrite(op[1], shape_rows(_restore(op[2]), tails[op[1]]))
+                coll.overwrite(op[1], arr(op[1], op[2], tails[op[1]]))
             elif kind == 'overwriteIds':
-                coll.overwrite(op[1], shape_rows(_restore(op[3]), tails[op[1]]), ids=np.array(op[2]))
+                coll.overwrite(op[1], arr(op[1], op[3], tails[op[1]]), ids=np.array(op[2]))
             elif kind == 'locWrite':
-                coll[op[1]].loc[list(op[2])].data = shape_rows(_restore(op[3]), tails[op[1]])
+                coll[op[1]].loc[list(op[2])].data = arr(op[1], op[3], tails[op[1]])
             elif kind == 'set_attribute_data':
-                coll.set_attribute_data(op[1], shape_rows(_restore(op[2]), op[3]), allow_overwrite=bool(op[4]))
+                coll.set_attribute_data(op[1], shape_rows(_restore(op[2]), op[3], 'float64', layout), allow_overwrite=bool(op[4]))
                 tails[op[1]] = op[3]
+                dts[op[1]] = 'float64'
             elif kind == 'pop':
                 coll.pop(op[1])
                 tails.pop(op[1], None)
@@ -678,7 +917,7 @@ def collection_reads(coll, sel, model_ask=None):
         defined = all(None not in w for w in want.values())
         got = None
         try:
-            f = coll.filter_with_ids(np.array(sel))
+            f = coll.filter_with_ids(det_ids(sel))
             got = {nm: ([int(i) for i in f[nm].ids], [tuple(x) for x in rows_of(f[nm].data, len(sel))]) for nm in f.keys()}
             ex = coll.extract_dict(list(sel))
             gex = {nm: [tuple(x) for x in rows_of(v, len(sel))] for nm, v in ex.items()}
@@ -743,9 +982,10 @@ def gen_collection(r):
     m = r.randint(2, 4)
     rel_of = []
     for j in range(m):
-        tail = r.choice([[], [1], [2], [3], [2, 2]])
+        tail = r.choice([[], [1], [2], [3], [2, 2], [3, 3], [2, 3], [2, 2, 2]])
         w = int(np.prod(tail)) if tail else 1
         ids = list(base)
+        dt = rand_dtype(r, .5)
         rel = 'first'
         route = r.choice(['dict', 'list', 'arrays'])
         if j:
@@ -769,18 +1009,21 @@ def gen_collection(r):
                 else:
                     ids = r.sample(ids, len(ids)) + [max(base) + r.randint(1, 9)]
         rel_of.append(rel)
-        attrs.append({'name': 'TQUVW'[j] if j < 5 else f'A{j}', 'ids': ids, 'rows': rand_rows(r, len(ids), w), 'tail': tail,
-                      'with_index': (r.random() < .4 and route not in ('update_data', 'set_attribute_data', 'arrays')), 'route': route})
-    return {'kind': 'collection', 'attrs': attrs, 'ops': [], 'reads': []}, style, order, rel_of
+        attrs.append({'name': 'TQUVW'[j] if j < 5 else f'A{j}', 'ids': ids, 'rows': rand_rows(r, len(ids), w, vk=value_kind(dt)), 'tail': tail,
+                      'with_index': (r.random() < .4 and route not in ('update_data', 'set_attribute_data', 'arrays')), 'route': route,
+                      'dt': dt, 'lay': rand_layout(r), 'idt': rand_id_dtype(r, ids, .5),
+                      'idlay': r.choice([None, None, 'strided', 'readonly', 'reversed'])})
+    return {'kind': 'collection', 'attrs': attrs, 'ops': [], 'oplay': [], 'reads': []}, style, order, rel_of
 
 
-def rand_collection_op(r, coll, tails):
+def rand_collection_op(r, coll, tails, dts):
     names = list(coll.keys())
     ids_of = {nm: [int(i) for i in coll[nm].ids] for nm in names}
     allids = sorted({i for v in ids_of.values() for i in v})
     u = r.random()
     nm = r.choice(names)
     w = lambda t: int(np.prod(t)) if t else 1
+    vk = lambda x: value_kind(dts.get(x))
     if u < .3:
         sel = r.sample(allids, r.randint(1, len(allids)))
         if r.random() < .4:
@@ -788,15 +1031,15 @@ def rand_collection_op(r, coll, tails):
             sel = list(dict.fromkeys(sel))
         r.shuffle(sel)
         which = r.sample(names, r.randint(1, min(2, len(names))))
-        return ['update_data', sel, {x: rand_rows(r, len(sel), w(tails[x]), allow_nan=True) for x in which}]
+        return ['update_data', sel, {x: rand_rows(r, len(sel), w(tails[x]), allow_nan=True, vk=vk(x)) for x in which}]
     if u < .45:
-        return ['overwrite', nm, rand_rows(r, len(ids_of[nm]), w(tails[nm]))]
+        return ['overwrite', nm, rand_rows(r, len(ids_of[nm]), w(tails[nm]), vk=vk(nm))]
     if u < .55:
         ids = r.sample(ids_of[nm], len(ids_of[nm]))
-        return ['overwriteIds', nm, ids, rand_rows(r, len(ids), w(tails[nm]))]
+        return ['overwriteIds', nm, ids, rand_rows(r, len(ids), w(tails[nm]), vk=vk(nm))]
     if u < .7:
         sel = r.sample(ids_of[nm], r.randint(1, len(ids_of[nm])))
-        return ['locWrite', nm, sel, rand_rows(r, len(sel), w(tails[nm]))]
+        return ['locWrite', nm, sel, rand_rows(r, len(sel), w(tails[nm]), vk=vk(nm))]
     if u < .9:
         key = r.choice(names + ['Z', 'Y'])
         tail = r.choice([[], [2], [3]])
@@ -804,7 +1047,7 @@ def rand_collection_op(r, coll, tails):
         return ['set_attribute_data', key, rand_rows(r, n0 if r.random() < .9 else n0 + 1, w(tail)), tail, r.random() < .8]
     if len(names) > 2:
         return ['pop', nm]
-    return ['overwrite', nm, rand_rows(r, len(ids_of[nm]), w(tails[nm]))]
+    return ['overwrite', nm, rand_rows(r, len(ids_of[nm]), w(tails[nm]), vk=vk(nm))]
 
 
 def pick_sel(r, coll):
@@ -832,14 +1075,25 @@ def collection_stream(ctx, k):
     try:
         coll = build_collection(spec)
         tails = {sp['name']: sp['tail'] for sp in spec['attrs']}
+        dts = {sp['name']: sp['dt'] for sp in spec['attrs']}
+        for sp in spec['attrs']:
+            ctx.count(f'collection:data-dtype:{sp["dt"]}')
+            ctx.count(f'collection:layout:{sp["lay"]}' + (':rank>=3' if len(sp['tail']) >= 2 else ''))
+            ctx.count(f'collection:ids-dtype:{sp["idt"] or "default"}')
         ask = ctx.driver.ask if ctx.driver is not None else None
+        for sig, detail in collection_construct(coll, spec):
+            ctx.case(('coll', k, 'construct'), nontrivial=True)
+            ctx.fail(sig, detail, {**spec, 'ops': [], 'oplay': [], 'reads': []}, None)
+            return
         for stage in range(n_ops + 1):
             if stage:
-                op = rand_collection_op(r, coll, tails)
+                op = rand_collection_op(r, coll, tails, dts)
                 names = list(coll.keys())
                 all_states = [observe(coll[nm]) for nm in names]
-                err = apply_collection_op(coll, tails, op)
+                layout = rand_layout(r)
                 spec['ops'].append(op)
+                spec['oplay'].append(layout)
+                err = apply_collection_op(coll, tails, op, dts, layout)
                 ctx.count('collection:op:' + op[0] + ('' if err == 'ok' else '/' + err))
                 if op[0] == 'set_attribute_data' and ask is not None:
                     t = C.Toks(ask('c08.csetattr ' + C.enc_list(all_states, enc_state) + ' ' + enc_rows(op[2])))
@@ -864,7 +1118,7 @@ def collection_stream(ctx, k):
                 if sig == 'MODEL':
                     ctx.disagree('collection filter', dict(spec), detail[0], detail[1:])
                 else:
-                    ctx.fail(sig, detail, {**spec, 'ops': list(spec['ops']), 'reads': list(spec['reads'])}, None)
+                    ctx.fail(sig, detail, {**spec, 'ops': list(spec['ops']), 'oplay': list(spec['oplay']), 'reads': list(spec['reads'])}, None)
             if probs:
                 return
         # the same collection as nodal_data of a FEMData: extraction of a part filters it by node id
@@ -883,7 +1137,7 @@ def collection_stream(ctx, k):
                 ctx.count('collection:extract_with_element_indices')
                 ctx.case(('coll-femdata', k), nontrivial=True)
                 for sig, detail in femdata_extract_check(coll, fd):
-                    ctx.fail(sig, detail, {**spec, 'ops': list(spec['ops']), 'reads': list(spec['reads'])}, None)
+                    ctx.fail(sig, detail, {**spec, 'ops': list(spec['ops']), 'oplay': list(spec['oplay']), 'reads': list(spec['reads'])}, None)
     except (RuntimeError, AssertionError):
         raise
     except Exception as e:
@@ -894,21 +1148,39 @@ def collection_stream(ctx, k):
             raise
         ctx.case(('coll-raises', k), nontrivial=True)
         ctx.fail('collection:raises', f'a public path of a collection of attributes raised {type(e).__name__}: {e} (at {where})',
-                 {**spec, 'ops': list(spec['ops']), 'reads': list(spec['reads'])}, None)
+                 {**spec, 'ops': list(spec['ops']), 'oplay': list(spec['oplay']), 'reads': list(spec['reads'])}, None)
+
+
+def collection_construct(coll, spec):
+    """every attribute of the freshly built collection is the table (ids, rows) handed over for it"""
+    for sp in spec['attrs']:
+        if sp['name'] not in coll:
+            return [('collection:construct', f'attribute {sp["name"]!r} is missing')]
+        a = coll[sp['name']]
+        ids = [int(i) for i in a.ids]
+        if ids != list(sp['ids']) or rows_of(a.data, len(ids)) != _restore(sp['rows']):
+            return [('collection:construct', f'attribute {sp["name"]!r} (data dtype {sp.get("dt")}, layout {sp.get("lay")}, ids dtype '
+                     f'{sp.get("idt")}, route {sp["route"]}) does not hold (ids[k], data[k]) = the ids and rows handed over')]
+    return []
 
 
 def run_collection(case):
     coll = build_collection(case)
+    bad = collection_construct(coll, case)
+    if bad:
+        return bad
     tails = {sp['name']: sp['tail'] for sp in case['attrs']}
+    dts = {sp['name']: sp.get('dt') for sp in case['attrs']}
+    oplay = list(case.get('oplay', [])) + [None] * len(case['ops'])
     found = []
     for stage, sel in enumerate(case['reads']):
         if stage:
-            apply_collection_op(coll, tails, case['ops'][stage - 1])
+            apply_collection_op(coll, tails, case['ops'][stage - 1], dts, oplay[stage - 1])
         probs, _ = collection_reads(coll, list(sel))
         found += [p for p in probs if p[0] != 'MODEL']
     if len(case['ops']) >= len(case['reads']) and case['ops']:
-        for op in case['ops'][max(0, len(case['reads']) - 1):]:
-            apply_collection_op(coll, tails, op)
+        for j in range(max(0, len(case['reads']) - 1), len(case['ops'])):
+            apply_collection_op(coll, tails, case['ops'][j], dts, oplay[j])
     if 'femdata' in case and not found:
         found += femdata_extract_check(coll, case['femdata'])
     return found
@@ -921,10 +1193,15 @@ def time_series_stream(ctx, k):
     ids, style = mg.random_ids(r, n)
     ids, order = mg.order_ids(r, list(ids), {i: i for i in ids})
     tail = r.choice([[1], [2], [3]])
-    case = {'kind': 'time-series', 'ids': ids, 'steps': [rand_rows(r, n, tail[0]) for _ in range(T)], 'tail': tail,
-            'assign': [rand_rows(r, n, tail[0]) for _ in range(T)] if r.random() < .5 else None,
-            'sel': r.sample(ids, r.randint(1, n))}
+    dt = rand_dtype(r, .5)
+    vk = value_kind(dt)
+    case = {'kind': 'time-series', 'ids': ids, 'steps': [rand_rows(r, n, tail[0], vk=vk) for _ in range(T)], 'tail': tail,
+            'assign': [rand_rows(r, n, tail[0], vk=vk) for _ in range(T)] if r.random() < .5 else None,
+            'sel': r.sample(ids, r.randint(1, n)), 'dt': dt, 'lay': [rand_layout(r), rand_layout(r)], 'idt': rand_id_dtype(r, ids, .5),
+            'idlay': r.choice([None, None, 'strided', 'readonly', 'reversed'])}
     ctx.count(f'time-series:ids:{order}')
+    ctx.count(f'time-series:data-dtype:{dt}')
+    ctx.count(f'time-series:layout:{case["lay"][0]}')
     ctx.case(('ts', k), sample={'ids': ids, 'steps': T}, nontrivial=True)
     for sig, detail in run_time_series(case):
         ctx.fail(sig, detail, case, None)
@@ -935,13 +1212,15 @@ def run_time_series(case):
     from femio import FEMAttribute
     ids, tail = list(case['ids']), case['tail']
     n = len(ids)
-    arr = lambda steps: np.stack([shape_rows(_restore(st), tail) for st in steps])
+    lays = case.get('lay') or [None, None]
+    arr = lambda steps, layout: lay(cast_rows(np.stack([shape_rows(_restore(st), tail) for st in steps]), case.get('dt')), layout)
     out = []
     try:
-        a = FEMAttribute('t', ids=np.array(ids), data=arr(case['steps']), silent=True, time_series=True)
+        a = FEMAttribute('t', ids=ids_array(ids, case.get('idt'), case.get('idlay')), data=arr(case['steps'], lays[0]), silent=True,
+                         time_series=True)
         cur = case['steps']
         if case.get('assign'):
-            a.data = arr(case['assign'])
+            a.data = arr(case['assign'], lays[1])
             cur = case['assign']
         want = [[tuple(x) for x in _restore(st)] for st in cur]          # want[t][k]
         T = len(want)
@@ -949,9 +1228,9 @@ def run_time_series(case):
         if [int(i) for i in a.ids] != ids or got != want or len(a) != n:
             out.append(('time-series:data', 'ids / data differ from what was assigned'))
         for kk, i in enumerate(ids):
-            for path, c in (('loc', a.loc[[i]]), ('iloc', a.iloc[[kk]])):
-                if [tuple(rows_of(c.data[t], 1)[0]) for t in range(T)] != [want[t][kk] for t in range(T)]:
-                    out.append((f'time-series:{path}', f'{path} of id {i} (position {kk}) differs from data[:, {kk}]'))
+            for path, c in (('loc', a.loc[[i]]), ('iloc', a.iloc[[kk]]), ('loc-scalar', a.loc[i]), ('iloc-scalar', a.iloc[kk])):
+                if [int(x) for x in c.ids] != [i] or [tuple(rows_of(c.data[t], 1)[0]) for t in range(T)] != [want[t][kk] for t in range(T)]:
+                    out.append((f'time-series:{path}', f'{path} of id {i} (position {kk}) differs from (ids[{kk}], data[:, {kk}])'))
         sel = list(case['sel'])
         pos = [ids.index(i) for i in sel]
         c = a.loc[sel]
@@ -962,7 +1241,7 @@ def run_time_series(case):
         out.append(('time-series:raises', f'{type(e).__name__}: {e}'))
         return out
     try:
-        f = a.filter_with_ids(np.array(sel))
+        f = a.filter_with_ids(det_ids(sel))
         fd = np.asarray(f.data, dtype=float)
         if [int(i) for i in f.ids] != sel or fd.shape[:2] != (T, len(sel)) or \
                 [[tuple(x) for x in rows_of(fd[t], len(sel))] for t in range(T)] != [[want[t][p] for p in pos] for t in range(T)]:
@@ -970,6 +1249,118 @@ def run_time_series(case):
     except Exception as e:
         out.append(('time-series:filter_with_ids', f'filter_with_ids({sel}) on a time-series attribute raised {type(e).__name__}: {e}'))
     return out
+
+
+# ------------------------------------------------------------------------------------------------ size boundaries
+def large_stream(ctx, k):
+    """class G: a few large-but-cheap inputs - an attribute / a mixed element collection with more than 2^16 rows (positions beyond
+    65535, pandas' large-index code paths), checked vectorised"""
+    r = ctx.rng
+    n = r.choice([65537, 65536 + r.randint(2, 3000), 70001])
+    what = ['attribute', 'elements'][k % 2]
+    ids_hi = 3 * n + 10
+    case = {'kind': 'large', 'what': what, 'n': n, 'seed': r.randrange(10**6), 'dt': rand_dtype(r, .4), 'lay': rand_layout(r),
+            'idt': r.choice([None, None, 'uint32', 'int32', 'uint64', 'int64']), 'tail': r.choice([[], [3], [2, 2]]),
+            'with_index': True}
+    ctx.count(f'large:{what}')
+    ctx.case(('large', k), sample={'what': what, 'n': n, 'dtype': case['dt'], 'ids_dtype': case['idt'], 'layout': case['lay']}, nontrivial=True)
+    try:
+        bad = run_large(case)
+    except Exception as e:
+        import traceback
+        tb = traceback.extract_tb(e.__traceback__)
+        where = next((f'{f.filename.split("/")[-1]}:{f.lineno}' for f in reversed(tb) if '/femio/' in f.filename), None)
+        if where is None:
+            raise
+        bad = [(f'large:{what}:raises', f'{type(e).__name__}: {e} (at {where})')]
+    for sig, detail in bad:
+        ctx.fail(sig, f'{what} with {n} rows: {detail}', case, None)
+
+
+def run_large(case):
+    from femio import FEMAttribute, FEMElementalAttribute
+    rs = np.random.RandomState(case['seed'])
+    n, tail = case['n'], list(case['tail'])
+    w = int(np.prod(tail)) if tail else 1
+    ids = rs.permutation(np.arange(1, 3 * n + 10))[:n].astype(np.int64)          # sparse, unsorted, distinct
+    probe = np.unique(np.concatenate([[0, 1, 65534, 65535, 65536, n - 2, n - 1], rs.randint(0, n, 12)]))
+    out = []
+    if case['what'] == 'attribute':
+        vk = value_kind(case['dt'])
+        vals = (rs.randint(0, 2, (n, w)) if vk == 'bool' else rs.randint(0, 100, (n, w)) if vk == 'uint' else rs.randint(-50, 50, (n, w))).astype(float)
+        a = FEMAttribute('x', ids=ids_array(ids.tolist(), case['idt']), data=lay(cast_rows(vals.reshape([n] + tail), case['dt']), case['lay']),
+                         silent=True, generate_id2index=True)
+
+        def views(table_ids, table, when):
+            m = len(table_ids)
+            if not np.array_equal(np.asarray(a.ids, dtype=np.int64), table_ids):
+                return [('large:attribute:ids', f'{when}: ids differ from the table')]
+            if not np.array_equal(np.asarray(a.data, dtype=float).reshape(m, -1), table):
+                return [('large:attribute:data', f'{when}: data differs from the table')]
+            if not np.array_equal(np.asarray(a.data_frame.values, dtype=float).reshape(m, -1), table):
+                return [('large:attribute:frame', f'{when}: the id-keyed frame differs from the positional data')]
+            if not np.array_equal(np.asarray(a.ids2indices(table_ids[::-1])), np.arange(m)[::-1]):
+                return [('large:attribute:ids2indices', f'{when}: ids2indices(ids reversed) is not the reversed range of positions')]
+            sel = rs.permutation(m)[: m // 2]
+            sel[:3] = [m - 1, min(65536, m - 1), 0]
+            f = a.filter_with_ids(table_ids[sel])
+            if not np.array_equal(np.asarray(f.ids, dtype=np.int64), table_ids[sel]) or \
+                    not np.array_equal(np.asarray(f.data, dtype=float).reshape(len(sel), -1), table[sel]):
+                return [('large:attribute:filter_with_ids', f'{when}: filter_with_ids of {len(sel)} ids does not return their rows')]
+            for kk in probe[probe < m]:
+                i = int(table_ids[kk])
+                for path, got in (('loc', a.loc[i].data), ('iloc', a.iloc[int(kk)].data), ('getitem', a[i])):
+                    if not np.array_equal(np.asarray(got, dtype=float).ravel(), table[kk]):
+                        return [(f'large:attribute:{path}', f'{when}: {path} of id {i} (position {kk}) is not data[{kk}]')]
+            return []
+        out += views(ids, vals, 'as constructed')
+        if not out:          # write through an id-selected slice reaching beyond position 65535
+            sel = np.unique(np.concatenate([probe, rs.randint(0, n, 500)]))
+            rs.shuffle(sel)
+            new = vals.copy()
+            new[sel] = (new[sel] + 1) % 2 if vk == 'bool' else new[sel] + 1
+            a.loc[ids[sel].tolist()].data = lay(cast_rows(new[sel].reshape([len(sel)] + tail), case['dt']), case['lay'])
+            out += views(ids, new, 'after a write through loc[...] of 500 ids')
+            vals = new
+        if not out:          # update that adds ids: the union is sorted ascending
+            add = np.array([3 * n + 20, 3 * n + 11, int(ids[0])], dtype=np.int64)
+            rows = np.array([[1.] * w, [0.] * w, [1.] * w])
+            a.update(add.tolist(), lay(cast_rows(rows.reshape([3] + tail), case['dt']), case['lay']), allow_overwrite=True)
+            table = dict(zip(ids.tolist(), vals))
+            table.update(zip(add.tolist(), rows))
+            tid = np.array(sorted(table), dtype=np.int64)
+            out += views(tid, np.array([table[i] for i in tid.tolist()]), 'after update() adding two ids')
+        return out
+    # ---- a mixed element collection: tri + quad numbered round-robin
+    nn = 50
+    is_tri = (np.arange(n) % 2 == 0)
+    order = rs.permutation(n)
+    eid = ids          # element ids: sparse, unsorted
+    tri_rows = rs.randint(1, nn, (int(is_tri.sum()), 3))
+    quad_rows = rs.randint(1, nn, (n - int(is_tri.sum()), 4))
+    sort_all = np.sort(eid)
+    tri_ids, quad_ids = sort_all[is_tri][rs.permutation(int(is_tri.sum()))], sort_all[~is_tri][rs.permutation(n - int(is_tri.sum()))]
+    el = mg.quiet(lambda: FEMElementalAttribute('ELEMENT', {
+        'quad': FEMAttribute('quad', ids=ids_array(quad_ids.tolist(), case['idt']), data=lay(quad_rows, case['lay']), silent=True),
+        'tri': FEMAttribute('tri', ids=ids_array(tri_ids.tolist(), case['idt']), data=lay(tri_rows, case['lay']), silent=True)}))
+    got_ids = np.asarray(el.ids, dtype=np.int64)
+    if not np.array_equal(got_ids, sort_all):
+        return [('large:elements:ids', 'the flattened ids are not every element id once in ascending order')]
+    if not np.array_equal(np.asarray(el.types), np.where(is_tri, 'tri', 'quad')):
+        return [('large:elements:types', 'types[k] is not the type of the block that owns ids[k]')]
+    if not np.array_equal(el.id2index.loc[sort_all[::-1]].values[:, 0], np.arange(n)[::-1]) or \
+            not np.array_equal(el.ids_types.loc[sort_all].values[:, 0], np.where(is_tri, 'tri', 'quad')):
+        return [('large:elements:id2index', 'id2index / ids_types are not consistent with the flattened order')]
+    owner = {int(i): list(map(int, c)) for i, c in zip(tri_ids, tri_rows)}
+    owner.update({int(i): list(map(int, c)) for i, c in zip(quad_ids, quad_rows)})
+    for kk in probe:
+        if [int(x) for x in el.data[kk]] != owner[int(sort_all[kk])]:
+            return [('large:elements:data', f'data[{kk}] is not the connectivity of element {int(sort_all[kk])}')]
+    sel = np.concatenate([sort_all[probe], sort_all[rs.randint(0, n, 150)]])
+    sel = sel[np.sort(np.unique(sel, return_index=True)[1])]
+    f = mg.quiet(el.filter_with_ids, sel)
+    want = {'tri': [(int(i), owner[int(i)]) for i in sel if len(owner[int(i)]) == 3], 'quad': [(int(i), owner[int(i)]) for i in sel if len(owner[int(i)]) == 4]}
+    return [('large:elements:filter_with_ids', p) for p in check_flat(f, {t: b for t, b in want.items() if b}, 'filter_with_ids')]
 
 
 # ------------------------------------------------------------------------------------------------ outside the quantifier
@@ -1005,86 +1396,156 @@ def outside_stream(ctx, k):
     ctx.count(f'outside-quantifier:{kind}:' + ('views-agree' if agree else 'views-disagree'))
 
 
-def elem_stream(ctx, k):
-    """mixed-type element collections; an exception inside femio on these in-quantifier inputs is a failure"""
-    try:
-        _elem_stream(ctx, k)
-    except (RuntimeError, AssertionError):
-        raise
-    except Exception as e:
-        import traceback
-        tb = traceback.extract_tb(e.__traceback__)
-        where = next((f'{f.filename.split("/")[-1]}:{f.lineno}' for f in reversed(tb) if '/femio/' in f.filename), '?')
-        ctx.case(('elem-raises', k), nontrivial=True)
-        ctx.fail('element-collection:raises', f'a public read path of an element collection raised {type(e).__name__}: {e} (at {where})',
-                 {'stream': 'elements', 'index': k, 'seed_note': 're-run with the same VERIF_SEED'}, None)
+RAGGED_POLYGON = 'filter_with_ids:ragged-polygon'
+EID_LAYOUTS = ('random', 'random', 'blockwise', 'blockwise-swap', 'later-type-smaller', 'round-robin', 'descending')
 
 
-def _elem_stream(ctx, k):
-    from femio import FEMAttribute, FEMElementalAttribute
-    r = ctx.rng
-    types = r.sample(['line', 'tri', 'quad', 'tet', 'tet2', 'pyr', 'prism', 'hex', 'hex2', 'hexprism', 'hexprism'], r.randint(1, 3))
-    m = mg.gen_combinatorial(r, types=types, max_elems=ctx.n(8, 14))
-    blocks = dict(m['blocks'])
-    if r.random() < .3:
-        # a ragged polyhedron block (long type name, rows of different lengths)
-        used = {e for b in blocks.values() for e, _ in b}
-        nid = [i for i, _ in m['nodes']]
-        rows = []
-        for _ in range(r.randint(1, 3)):
-            e = max(used) + r.randint(1, 5)
-            used.add(e)
-            rows.append((e, r.sample(nid, min(len(nid), r.randint(4, 7)))))
-        blocks['polyhedron'] = rows
-        blocks = {t: blocks[t] for t in mg.ELEMENT_TYPES if t in blocks}
-    def block_data(t, b):
-        if t == 'polyhedron':
-            a = np.empty(len(b), dtype=object)
-            a[:] = [np.array(c) for _, c in b]
-            return a
-        return np.array([c for _, c in b])
-    el = mg.quiet(lambda: FEMElementalAttribute('ELEMENT', {
-        t: FEMAttribute(t, ids=np.array([e for e, _ in b]), data=block_data(t, b), silent=True)
-        for t, b in blocks.items()}))
-    owner = {e: (t, c) for t, b in blocks.items() for e, c in b}
+def assign_eids(r, blocks, layout):
+    """the same elements and the same id SET, numbered so that ids and types interleave in a given pattern: `blockwise` (numbered
+    consecutively type after type - the concatenation in type order IS ascending), `blockwise-swap` (that, with one adjacent
+    transposition: looks sorted), `later-type-smaller` (every block ascending, later types hold the smaller ids), `round-robin`
+    (tri 1, quad 2, tri 3, ...), `descending`; `random` keeps the shuffled numbering of the generator"""
+    if layout == 'random':
+        return blocks
+    types = list(blocks)
+    all_ids = sorted(e for b in blocks.values() for e, _ in b)
+    sizes = {t: len(blocks[t]) for t in types}
+    new = {t: [] for t in types}
+    if layout in ('blockwise', 'blockwise-swap', 'descending'):
+        seq = all_ids[::-1] if layout == 'descending' else list(all_ids)
+        if layout == 'blockwise-swap' and len(seq) > 1:
+            j = r.randrange(len(seq) - 1)
+            seq[j], seq[j + 1] = seq[j + 1], seq[j]
+        it = iter(seq)
+        for t in types:
+            new[t] = [next(it) for _ in range(sizes[t])]
+    elif layout == 'later-type-smaller':
+        it = iter(all_ids)
+        for t in reversed(types):
+            new[t] = [next(it) for _ in range(sizes[t])]
+    else:          # round-robin
+        j = 0
+        for e in all_ids:
+            while len(new[types[j % len(types)]]) >= sizes[types[j % len(types)]]:
+                j += 1
+            new[types[j % len(types)]].append(e)
+            j += 1
+    return {t: [(e, c) for e, (_, c) in zip(new[t], blocks[t])] for t in types}
+
+
+def _block_attr(t, rows, spec):
+    """one element block as the FEMAttribute a caller / reader would hand over: ids and connectivity in the spec's dtypes / layouts"""
+    from femio import FEMAttribute
+    ids = ids_array([e for e, _ in rows], (spec.get('idt') or {}).get(t), (spec.get('idlay') or {}).get(t))
+    if t == 'polyhedron' or (t == 'polygon' and len({len(c) for _, c in rows}) > 1):
+        data = np.empty(len(rows), dtype=object)          # ragged rows
+        data[:] = [np.array(c) for _, c in rows]
+    else:
+        data = np.array([c for _, c in rows])
+        cdt = spec.get('cdt')
+        if cdt and data.size and np.iinfo(cdt).min <= data.min() and data.max() <= np.iinfo(cdt).max:
+            data = data.astype(cdt)
+        data = lay(data, (spec.get('lay') or {}).get(t))
+    return FEMAttribute(t, ids=ids, data=data, silent=True)
+
+
+def check_flat(el, blocks, what):
+    """a (mixed) element collection against the blocks it was built from, by definition: every element exactly once, ascending id
+    order when mixed, type / connectivity / id2index / ids_types / dict_type_ids / the blocks themselves mutually consistent"""
+    owner = {e: (t, list(c)) for t, b in blocks.items() for e, c in b}
     ids = [int(i) for i in el.ids]
     types = [str(t) for t in el.types]
     data = [[int(x) for x in d] for d in el.data]
-    case = {'blocks': {t: [[e, c] for e, c in b] for t, b in blocks.items()}}
-    mixed = len(blocks) > 1
-    ctx.count('elements:' + ('mixed' if mixed else 'uniform'))
-    ctx.case(('elem', k), sample={'types': list(blocks), 'ids': ids[:10]}, nontrivial=mixed)
     probs = []
-    if sorted(ids) != sorted(owner):
-        probs.append('not every element exactly once')
-    if mixed and ids != sorted(ids):
-        probs.append('ids not ascending')
+    if sorted(ids) != sorted(owner) or len(types) != len(ids) or len(data) != len(ids):
+        return [f'{what}: not every element exactly once: ids {ids[:12]} for elements {sorted(owner)[:12]}']
+    if len(blocks) > 1 and ids != sorted(ids):
+        probs.append(f'{what}: ids not ascending: {ids[:12]}')
     for p, i in enumerate(ids):
-        if i in owner and (types[p], data[p]) != (owner[i][0], owner[i][1]):
-            probs.append(f'type/connectivity at position {p} are not those of element {i}')
+        if (types[p], data[p]) != (owner[i][0], owner[i][1]):
+            probs.append(f'{what}: type/connectivity at position {p} are not those of element {i}')
             break
         if int(el.id2index.loc[i].values[0]) != p:
-            probs.append(f'id2index[{i}] != {p}')
+            probs.append(f'{what}: id2index[{i}] = {int(el.id2index.loc[i].values[0])} but the element is listed at {p}')
             break
         if str(el.ids_types.loc[i].values[0]) != owner[i][0]:
-            probs.append(f'ids_types[{i}] wrong')
+            probs.append(f'{what}: ids_types[{i}] wrong')
             break
     if {t: [int(i) for i in v] for t, v in el.dict_type_ids.items()} != {t: [e for e, _ in b] for t, b in blocks.items()}:
-        probs.append('dict_type_ids differs from the blocks')
-    # filter_with_ids / generate_elemental_attribute by definition
-    sel = r.sample(ids, r.randint(1, len(ids)))
-    f = mg.quiet(el.filter_with_ids, np.array(sel))
-    got = {t: ([int(i) for i in v.ids], [[int(x) for x in d] for d in v.data]) for t, v in f.items()}
+        probs.append(f'{what}: dict_type_ids differs from the blocks')
+    for t, b in blocks.items():
+        if t not in el or [int(i) for i in el[t].ids] != [e for e, _ in b] or [[int(x) for x in d] for d in el[t].data] != [list(c) for _, c in b]:
+            probs.append(f'{what}: block {t} differs from what was handed over')
+            break
+        if t not in ('polyhedron', 'polygon') and len(b):
+            e, c = b[-1]
+            if [int(x) for x in np.ravel(el[t].loc[e].data)] != list(c):
+                probs.append(f'{what}: block {t}.loc[{e}] is not the connectivity of element {e}')
+                break
+    return probs
+
+
+def elem_signature(prob):
+    """stable class name of an element-collection failure"""
+    if prob.startswith(RAGGED_POLYGON):
+        return 'element-collection:' + RAGGED_POLYGON
+    return 'element-collection:' + (prob.split(': ', 1)[-1] if ': ' in prob else prob).split(' ')[0]
+
+
+def run_elements(spec):
+    """mixed-type element collections by definition; returns (problems, [(blocks, (ids, types, data)) per stage for the model])"""
+    from femio import FEMElementalAttribute
+    blocks = {t: [(int(e), [int(x) for x in c]) for e, c in b] for t, b in spec['blocks'].items()}
+    order = spec.get('insertion') or list(blocks)
+    el = mg.quiet(lambda: FEMElementalAttribute('ELEMENT', {t: _block_attr(t, blocks[t], spec) for t in order}))
+    stages = []
+
+    def flat():
+        return [int(i) for i in el.ids], [str(t) for t in el.types], [[int(x) for x in d] for d in el.data]
+    probs = check_flat(el, blocks, 'as constructed')
+    stages.append((blocks, flat()))
+    upd = spec.get('update')
+    if upd and not probs:          # public update: a block replaced / a type added
+        blocks = dict(blocks)
+        blocks[upd['type']] = [(int(e), [int(x) for x in c]) for e, c in upd['rows']]
+        blocks = {t: blocks[t] for t in mg.ELEMENT_TYPES if t in blocks}
+        mg.quiet(el.update, {upd['type']: _block_attr(upd['type'], blocks[upd['type']], spec)})
+        probs += check_flat(el, blocks, f'after update of block {upd["type"]}')
+        stages.append((blocks, flat()))
+    if probs:
+        return probs, stages
+    owner = {e: (t, c) for t, b in blocks.items() for e, c in b}
+    # id -> position translation of the node attribute applied to the whole collection (one array of positions per type)
+    if spec.get('nodes'):
+        from femio import FEMAttribute
+        nids = [int(i) for i in spec['nodes']]
+        nodes = FEMAttribute('NODE', ids=ids_array(nids, spec.get('cdt')), data=np.arange(3. * len(nids)).reshape(-1, 3), silent=True,
+                             generate_id2index=True)
+        pos = {i: k for k, i in enumerate(nids)}
+        got = nodes.ids2indices(el)
+        wantp = [[[pos[x] for x in c] for _, c in blocks[t]] for t in mg.ELEMENT_TYPES if t in blocks]
+        if len(got) != len(wantp) or any([[int(x) for x in row] for row in g_] != w_ for g_, w_ in zip(got, wantp)):
+            probs.append('ids2indices(element collection): not, per type in ELEMENT_TYPES order, the positions of the connectivity node ids')
+    # filter_with_ids: again a consistent collection, holding exactly the selected elements, per type in the order asked for
+    sel = [int(i) for i in spec['sel']]
+    try:
+        f = mg.quiet(el.filter_with_ids, det_ids(sel))
+    except ValueError as e:
+        if len({len(owner[i][1]) for i in sel if owner[i][0] == 'polygon'}) > 1 and 'same shape' in str(e):
+            return [RAGGED_POLYGON + f': filter_with_ids({sel}) raised ValueError: {e} - the selected polygons have '
+                    f'{sorted({len(owner[i][1]) for i in sel if owner[i][0] == "polygon"})} nodes (a ragged block, as to_surface / the '
+                    'polyhedron readers produce); the same selection of a ragged polyhedron block works'], stages
+        raise
     want = {}
     for i in sel:
-        want.setdefault(owner[i][0], ([], []))
-        want[owner[i][0]][0].append(i)
-        want[owner[i][0]][1].append(owner[i][1])
-    if got != want:
-        probs.append(f'filter_with_ids({sel}) wrong')
-    vals = {i: float(r.randint(-99, 99)) for i in ids}
-    sel2 = r.sample(ids, r.randint(1, len(ids)))
-    g = mg.quiet(el.generate_elemental_attribute, 'v', np.array(sel2), np.array([[vals[i]] for i in sel2]))
+        want.setdefault(owner[i][0], []).append((i, owner[i][1]))
+    want = {t: want[t] for t in mg.ELEMENT_TYPES if t in want}
+    probs += check_flat(f, want, f'filter_with_ids({sel})')
+    # generate_elemental_attribute: values bound to elements by id
+    vals = {int(i): float(v) for i, v in spec['vals']}
+    sel2 = [int(i) for i in spec['sel2']]
+    g = mg.quiet(el.generate_elemental_attribute, 'v', det_ids(sel2), lay(cast_rows(np.array([[vals[i]] for i in sel2]), spec.get('vdt')),
+                                                                          spec.get('vlay')))
     for t, v in g.items():
         for i, d in zip(v.ids, v.data):
             if owner[int(i)][0] != t or float(np.ravel(d)[0]) != vals[int(i)]:
@@ -1092,17 +1553,120 @@ def _elem_stream(ctx, k):
                 break
     if sorted(int(i) for v in g.values() for i in v.ids) != sorted(sel2):
         probs.append('generate_elemental_attribute drops or duplicates ids')
+    elif [float(np.ravel(d)[0]) for d in g.data] != [vals[int(i)] for i in g.ids] or (len(g.keys()) > 1 and [int(i) for i in g.ids] != sorted(sel2)):
+        probs.append('generate_elemental_attribute: the flattened (ids[k], data[k]) of the result is not the table handed over, in ascending id order')
+    return probs, stages
+
+
+def elem_stream(ctx, k):
+    """mixed-type element collections; an exception inside femio on these in-quantifier inputs is a failure"""
+    spec = gen_elements(ctx, k)
+    try:
+        probs, stages = run_elements(spec)
+    except (RuntimeError, AssertionError):
+        raise
+    except Exception as e:
+        import traceback
+        tb = traceback.extract_tb(e.__traceback__)
+        where = next((f'{f.filename.split("/")[-1]}:{f.lineno}' for f in reversed(tb) if '/femio/' in f.filename), None)
+        if where is None:
+            raise
+        ctx.case(('elem-raises', k), nontrivial=True)
+        ctx.fail('element-collection:raises', f'a public path of an element collection raised {type(e).__name__}: {e} (at {where})', spec, None)
+        return
     if probs:
-        ctx.fail('element-collection:' + probs[0].split(' ')[0], 'mixed element collection inconsistent: ' + '; '.join(probs[:3]),
-                 case, {'ids': ids, 'types': types})
+        ctx.fail(elem_signature(probs[0]), 'element collection inconsistent: ' + '; '.join(probs[:3]), spec,
+                 {'ids': stages[-1][1][0], 'types': stages[-1][1][1]} if stages else None)
     if ctx.driver is not None:
-        enc = C.enc_list(blocks.items(), lambda tb: f'{mg.ELEMENT_TYPES.index(tb[0])} ' + C.enc_list(
-            tb[1], lambda ec: f'{ec[0]} {C.enc_list(ec[1])}'))
-        t = C.Toks(ctx.driver.ask('c08.flatten ' + enc))
-        assert t.tok() == 'ok'
-        mflat = t.lst(lambda: (t.nat(), mg.ELEMENT_TYPES[t.nat()], t.lst(t.nat)))
-        if mflat != list(zip(ids, types, data)):
-            ctx.disagree('flatten', case, list(zip(ids, types, data))[:6], mflat[:6])
+        for blocks, (ids, types, data) in stages:
+            enc = C.enc_list(blocks.items(), lambda tb: f'{mg.ELEMENT_TYPES.index(tb[0])} ' + C.enc_list(
+                tb[1], lambda ec: f'{ec[0]} {C.enc_list(ec[1])}'))
+            t = C.Toks(ctx.driver.ask('c08.flatten ' + enc))
+            assert t.tok() == 'ok'
+            mflat = t.lst(lambda: (t.nat(), mg.ELEMENT_TYPES[t.nat()], t.lst(t.nat)))
+            if mflat != list(zip(ids, types, data)):
+                ctx.disagree('flatten', spec, list(zip(ids, types, data))[:6], mflat[:6])
+                break
+
+
+def gen_elements(ctx, k):
+    r = ctx.rng
+    types = r.sample(['line', 'tri', 'quad', 'tet', 'tet2', 'pyr', 'prism', 'hex', 'hex2', 'hexprism', 'hexprism',
+                      'line2', 'spring', 'tri2', 'quad2'], r.randint(1, 3))          # every fixed-arity type femio names
+    m = mg.gen_combinatorial(r, types=types, max_elems=ctx.n(8, 14))
+    blocks = dict(m['blocks'])
+    nid = [i for i, _ in m['nodes']]
+    if r.random() < .25:
+        # a polygon block: rows of ONE length (a 2-d array) or of different lengths (ragged, as to_surface of polyhedra gives)
+        used = {e for b in blocks.values() for e, _ in b}
+        rows = []
+        ragged = r.random() < .6
+        k0 = r.randint(5, min(len(nid), 7)) if len(nid) >= 5 else len(nid)
+        for _ in range(r.randint(1, 3)):
+            e = max(used) + r.randint(1, 5)
+            used.add(e)
+            rows.append((e, r.sample(nid, min(len(nid), r.randint(3, 7)) if ragged else k0)))
+        blocks['polygon'] = rows
+        blocks = {t: blocks[t] for t in mg.ELEMENT_TYPES if t in blocks}
+    if r.random() < .3:
+        # a ragged polyhedron block (long type name, rows of different lengths)
+        used = {e for b in blocks.values() for e, _ in b}
+        rows = []
+        for _ in range(r.randint(1, 3)):
+            e = max(used) + r.randint(1, 5)
+            used.add(e)
+            rows.append((e, r.sample(nid, min(len(nid), r.randint(4, 7)))))
+        blocks['polyhedron'] = rows
+        blocks = {t: blocks[t] for t in mg.ELEMENT_TYPES if t in blocks}
+    eid_layout = r.choice(EID_LAYOUTS)
+    blocks = assign_eids(r, blocks, eid_layout)
+    if r.random() < .1:          # ids beyond 2^31 / 2^32 (uint32 / 64-bit only)
+        off = r.choice([2**31, 3 * 10**9, 2**32, 2**40])
+        blocks = {t: [(e + off, c) for e, c in b] for t, b in blocks.items()}
+        ctx.count('elements:ids-beyond-2^31')
+    all_ids = [e for b in blocks.values() for e, _ in b]
+    # dtype of the element ids (one for the collection, sometimes one per block), of the connectivity, memory layouts
+    one = rand_id_dtype(r, all_ids + [max(all_ids) + 40], .35)
+    idt = {t: (rand_id_dtype(r, all_ids + [max(all_ids) + 40], .35) if r.random() < .2 else one) for t in blocks}
+    cdt = r.choice([None] + fitting_id_dtypes(nid)) if r.random() < .5 else None
+    spec = {'kind': 'elements', 'blocks': {t: [[e, list(c)] for e, c in b] for t, b in blocks.items()},
+            'idt': idt, 'cdt': cdt, 'lay': {t: rand_layout(r, .4) for t in blocks},
+            'idlay': {t: r.choice([None, None, 'strided', 'readonly', 'reversed']) for t in blocks},
+            'insertion': r.sample(list(blocks), len(blocks)), 'update': None, 'nodes': nid}
+    # a public update of the collection: replace one block (other ids / other number of elements) or add a type
+    if r.random() < .5:
+        others = [t for t in ['line', 'tri', 'quad', 'tet', 'pyr', 'prism', 'hex'] if t not in blocks and mg.ARITY[t] <= len(nid)]
+        t = r.choice(others) if (others and r.random() < .4) else r.choice([x for x in blocks if x not in ('polyhedron', 'polygon')] or list(blocks))
+        if t not in ('polyhedron', 'polygon'):
+            keep = {e for tt, b in blocks.items() if tt != t for e, _ in b}
+            pool = [e for e in set(all_ids) | {max(all_ids) + j for j in range(1, 40)} | {max(1, min(all_ids) - j) for j in range(1, 6)}
+                    if e not in keep]
+            new_ids = r.sample(sorted(pool), r.randint(1, min(len(pool), 5)))
+            spec['update'] = {'type': t, 'rows': [[e, r.sample(nid, mg.ARITY[t])] for e in new_ids]}
+            spec['idt'].setdefault(t, one)
+    final = {t: [e for e, _ in b] for t, b in spec['blocks'].items()}
+    if spec['update']:
+        final[spec['update']['type']] = [e for e, _ in spec['update']['rows']]
+    ids = sorted(e for v in final.values() for e in v)
+    spec['sel'] = r.sample(ids, r.randint(1, len(ids)))
+    spec['sel2'] = r.sample(ids, r.randint(1, len(ids)))
+    vdt = rand_dtype(r, .5)
+    spec['vdt'], spec['vlay'] = vdt, rand_layout(r)
+    vk = value_kind(vdt)
+    spec['vals'] = [[i, float(rand_val(r, False, vk))] for i in ids]
+    n_types = len(final)
+    concat = [e for t in mg.ELEMENT_TYPES if t in spec['blocks'] for e, _ in spec['blocks'][t]]
+    ctx.count('elements:' + ('mixed' if len(spec['blocks']) > 1 else 'uniform') + ('' if not spec['update'] else '+update'))
+    ctx.count(f'elements:id-layout:{eid_layout}')
+    for t in spec['blocks']:
+        ctx.count(f'elements:type:{t}' + (':ragged' if t in ('polygon', 'polyhedron') and len({len(c) for _, c in spec["blocks"][t]}) > 1 else ''))
+    ctx.count('elements:ids-dtype:' + '/'.join(sorted({str(v or 'default') for v in idt.values()})))
+    if len(spec['blocks']) > 1:
+        ctx.count('elements:mixed:concatenation-' + ('ascending' if concat == sorted(concat) else 'not-ascending')
+                  + (':unsigned-ids' if any(v and v.startswith('u') for v in idt.values()) else ''))
+    ctx.case(('elem', k), sample={'types': list(spec['blocks']), 'ids': concat[:10], 'ids_dtype': idt, 'update': bool(spec['update'])},
+             nontrivial=n_types > 1 or len(spec['blocks']) > 1)
+    return spec
 
 
 def _restore(x):
@@ -1119,11 +1683,22 @@ def run_case(ctx, case):
         return run_collection(case)
     if kind == 'time-series':
         return run_time_series(case)
+    if kind == 'elements':
+        try:
+            return [(elem_signature(p), p) for p in run_elements(case)[0]]
+        except Exception as e:
+            return [('element-collection:raises', f'{type(e).__name__}: {e}')]
+    if kind == 'large':
+        return run_large(case)
     from femio import FEMAttribute, FEMAttributes
     rows0 = _restore(case['rows0'])
-    a = FEMAttribute('x', ids=np.array(case['ids']), data=shape_rows(rows0, case['tail']), silent=True,
-                     generate_id2index=case['with_index'])
-    holder = {'attrs': FEMAttributes({'x': a}), 'name': 'x', 'tail': case['tail'], 'held': [], 'refs': []}
+    fmt = Fmt(case.get('fmt'))
+    a = FEMAttribute('x', ids=ids_array(case['ids'], fmt.idt, fmt.idlay), data=shape_rows(rows0, case['tail'], fmt.dt, fmt.lay0),
+                     silent=True, generate_id2index=case['with_index'])
+    holder = {'attrs': FEMAttributes({'x': a}), 'name': 'x', 'tail': case['tail'], 'held': [], 'refs': [], 'fmt': fmt}
+    bad = construct_oracle(a, list(case['ids']), rows0)
+    if bad:
+        return [(f'views-disagree:construct:{bad[0][0]}', bad[0][1])]
     found = []
     for step, op in enumerate(case['ops']):
         op = [op[0]] + [_restore(x) for x in op[1:]]
@@ -1149,21 +1724,33 @@ def run(ctx):
         ctx.case(('corpus', name), nontrivial=True)
         for sig, detail in bad:
             ctx.fail(sig, f'corpus case {name}: {detail}', j, bad[:5])
+    import time
+    t0 = time.time()
+    marks = []
     for h in range(ctx.n(250, 2500)):
         history(ctx, h)
+    marks.append(('histories', time.time() - t0))
     for k in range(ctx.n(120, 1200)):
         collection_stream(ctx, k)
+    marks.append(('collections', time.time() - t0))
     for k in range(ctx.n(25, 250)):
         time_series_stream(ctx, k)
+    marks.append(('time-series', time.time() - t0))
     for k in range(ctx.n(80, 600)):
         elem_stream(ctx, k)
+    marks.append(('elements', time.time() - t0))
+    for k in range(ctx.n(2, 8)):
+        large_stream(ctx, k)
+    marks.append(('large', time.time() - t0))
     for k in range(ctx.n(20, 200)):
         outside_stream(ctx, k)
+    if os.environ.get('C08_DEBUG'):
+        print('C08 stream times (cumulative s):', ', '.join(f'{a} {b:.1f}' for a, b in marks))
 
 
 def replay(ctx, obj):
     case = obj['input']
-    if 'ops' not in case and case.get('kind') != 'time-series':
-        return {'fails': False, 'note': 'element-collection case: re-run the check'}
+    if 'ops' not in case and case.get('kind') not in ('time-series', 'elements', 'large'):
+        return {'fails': False, 'note': 'element-collection case recorded by an older version: re-run the check'}
     bad = run_case(ctx, case)
     return {'problems': bad[:5], 'fails': bool(bad)}
